@@ -3,6 +3,7 @@ package wsim
 import (
 	"bytes"
 	"fmt"
+	"strings"
 
 	"wsim/wsframe"
 )
@@ -232,10 +233,26 @@ func sentLog(t *Task) (sent []Msg, failed []Msg, ctl []Msg) {
 	if t == nil {
 		return
 	}
-	for _, r := range t.Hist {
+	for i, r := range t.Hist {
 		switch r.Op {
 		case "WriteMessage", "WriteJSON", "WritePreparedMessage", "Message":
 			m := Msg{MT: r.MsgType, Payload: r.Data, Note: r.Note, Rec: r}
+			if r.Op == "Message" && r.Err == "" && strings.Contains(r.Note, "implicit") {
+				// the writer is closed by the next message op, which swallows the
+				// result of that flush; the application learns of a failure from
+				// that op's own result
+				ok := false
+				for _, nx := range t.Hist[i+1:] {
+					if nx.Op == "WriteMessage" || nx.Op == "NextWriter" || nx.Op == "WriteJSON" {
+						ok = nx.Err == "" || !nx.failedAtOpen()
+						break
+					}
+				}
+				if !ok {
+					failed = append(failed, m)
+					continue
+				}
+			}
 			if r.MsgType >= 8 {
 				if r.Err == "" {
 					ctl = append(ctl, m)
@@ -303,3 +320,8 @@ func headLen(e *RealEnd) int {
 	}
 	return i + 4
 }
+
+// failedAtOpen: did this op fail before it could have written anything of its
+// own (so that the failure may stem from closing the previous writer)? Without
+// a view inside the library every failure of the op counts as such.
+func (r *OpRec) failedAtOpen() bool { return r.Err != "" }
